@@ -143,20 +143,12 @@ func fnv64a(vals []string) uint64 {
 }
 
 func init() {
-	// the real FNV-1a hash of the label values, computed natively per assignment
-	// of the index variables (label values come from solver-indexed pools)
-	intrinsics["github.com/flant/shell-operator/pkg/metric.HashLabelValues"] = func(fr *frame, a []value) (value, bool) {
-		vals := a[0].([]value)
-		r, _, ok := fr.m.lift(vals, func(c []value) (value, bool) {
-			ss := make([]string, len(c))
-			for i := range c {
-				ss[i] = c[i].(string)
-			}
-			return fnv64a(ss), true
-		})
-		if ok {
-			return r, true
-		}
+	// metric.HashLabelValues: the repository's own function (and hash/fnv from the standard
+	// library) is interpreted; for label values drawn from solver-indexed pools it is run
+	// once per assignment of the index variables and the results form a lifted value
+	const hashName = "github.com/flant/shell-operator/pkg/metric.HashLabelValues"
+	intrinsics[hashName] = func(fr *frame, a []value) (value, bool) {
+		vals, _ := a[0].([]value)
 		allConc := true
 		for _, v := range vals {
 			if _, isStr := v.(string); !isStr {
@@ -164,11 +156,21 @@ func init() {
 			}
 		}
 		if allConc {
-			ss := make([]string, len(vals))
-			for i := range vals {
-				ss[i] = vals[i].(string)
+			return nil, false // concrete: just interpret the real code
+		}
+		m := fr.m
+		r, _, ok := m.lift(vals, func(c []value) (value, bool) {
+			if m.bypassIntrinsic == nil {
+				m.bypassIntrinsic = map[string]bool{}
 			}
-			return fnv64a(ss), true
+			m.bypassIntrinsic[hashName] = true
+			defer func() { m.bypassIntrinsic[hashName] = false }()
+			arg := make([]value, len(c))
+			copy(arg, c)
+			return call(m, fr.caller, token.NoPos, fr.fn, []value{arg}), true
+		})
+		if ok {
+			return r, true
 		}
 		panic(engineErr("HashLabelValues on unbounded symbolic strings is not modelled"))
 	}
